@@ -117,7 +117,36 @@ def attr_type(prog: Program, ci: ClassInfo, attr: str) -> T:
                         x.target.attr == attr and isinstance(x.target.value, ast.Name) and \
                         x.target.value.id == "self":
                     return ann_type(prog, c.module, x.annotation)
+    # ... or without one: self.x = <typed expression>
+    key = (id(ci), attr)
+    if key in _ATTR_GUARD:
+        return None
+    _ATTR_GUARD.add(key)
+    try:
+        for c in prog.mro(ci):
+            for meth in c.methods.values():
+                for x in walk_no_nested(meth.node):
+                    if isinstance(x, ast.Assign) and len(x.targets) == 1 and isinstance(
+                            x.targets[0], ast.Attribute) and x.targets[0].attr == attr and \
+                            isinstance(x.targets[0].value, ast.Name) and \
+                            x.targets[0].value.id == "self" and not (
+                                isinstance(x.value, ast.Constant) and x.value.value is None):
+                        t = _env_for(prog, meth).type_of(x.value)
+                        if t is not None and t != ("list", None):
+                            return t
+    finally:
+        _ATTR_GUARD.discard(key)
     return None
+
+
+_ATTR_GUARD: set = set()
+_ENV_CACHE: Dict[str, "TypeEnv"] = {}
+
+
+def _env_for(prog: Program, f: FuncInfo) -> "TypeEnv":
+    if f.key not in _ENV_CACHE:
+        _ENV_CACHE[f.key] = TypeEnv(prog, f)
+    return _ENV_CACHE[f.key]
 
 
 class TypeEnv:
@@ -190,6 +219,8 @@ class TypeEnv:
         if isinstance(e, ast.Attribute):
             bt = self.type_of(e.value)
             outs = []
+            if bt is not None and bt[0] == "type":
+                bt = bt[1]  # static / class method or class attribute access through the class
             for ci in classes_of(bt):
                 t = attr_type(prog, ci, e.attr)
                 if t is not None:
